@@ -67,7 +67,7 @@ def handlers : List (String × (List Sexp → String)) := [
       let rows := es.map fun o => match o with
         | none => Sexp.atom "malformed"
         | some c => Sexp.list [.atom (kindStr c.kind), Sexp.ofStrs (nameStrs c), Sexp.ofBool (lengthsB c), Sexp.ofBool (positionsB c),
-            Sexp.ofBool (arityB c), Sexp.ofBool (noutsB c), Sexp.ofBool (distinctB c), Sexp.ofBool (getterPureB c)]
+            Sexp.ofBool (arityB c), Sexp.ofBool (noutsB c), Sexp.ofBool (distinctB c), Sexp.ofBool (getterPureB c), Sexp.ofBool (setterDeclaresB c)]
       pure (toString (Sexp.list [Sexp.ofBool (contractOk g), .list rows]))),
   ("c03.blockvars", fun a => run do
       let [m, li, lo, di, g, n] := a | none
